@@ -94,6 +94,8 @@ def build(spec, engine_cls=None, emitter=None, extra_steps=None, extra_topology=
               initial_global_time=spec.get('t0', 0), emit_step=spec.get('emit_step', 1))
     if spec.get('precision') is not None:
         kw['global_time_precision'] = spec['precision']
+    if spec.get('profile'):
+        kw['profile'] = True
     cls = engine_cls or MonEngine
     for j in range(spec.get('nsteps', 0)):
         from vmon.sensors import LedgerStep
